@@ -7,7 +7,7 @@
    why: every in-place write is written through the storage interface (Save of the same id, or its
    deletion) before the response and before the table is consulted again.  Statements only; proofs
    in Proofs/C18Proofs.v, definitions of no_touch / written_through / run_from_inst in Model/Alias.v. *)
-From Verif Require Import Base Scope Types Prog Pop Token Authorize System Config Run Alias C17Proofs C18Proofs.
+From Verif Require Import Base Scope Types Prog Pop Token Authorize System Config Run Alias ReadOnly C17Proofs C18Proofs C18ReadOnlyProofs.
 Local Open Scope N_scope.
 
 (* ---- the generic half: a program that never writes in place runs the same on both stores ---- *)
@@ -124,3 +124,46 @@ Example history_with_touches :
   | None => False
   end.
 Proof. vm_compute. repeat split. intros H. exact (H (RClient ex_client) (RGSess c18_g0)). Qed.
+
+(* ---- read-only endpoints.  The handlers of token introspection, userinfo and the provider's two
+        TokenInfo helpers (read_only_op, Model/ReadOnly.v) perform lookups only - no Save, no Delete,
+        no DeleteByAuthorizationCode - and never write in place to a loaded object (reads_only): for
+        every configuration, request and storage contents ... ---- *)
+Theorem read_only_handlers_only_read : forall w n now o,
+  read_only_op o = true -> reads_only (handler w n now o).
+Proof. exact read_only_handler_reads_only. Qed.
+Print Assumptions read_only_handlers_only_read.
+
+(* ... hence the storage after such a request is the storage before it, under the copying
+   interpreter and under the aliasing one ... *)
+Theorem read_only_endpoints_keep_the_store : forall w n now o st,
+  read_only_op o = true ->
+  fst (run_seq (handler w n now o) st) = st /\ fst (run_alias (handler w n now o) st) = st.
+Proof. exact read_only_handler_keeps_store. Qed.
+Print Assumptions read_only_endpoints_keep_the_store.
+
+(* ... and so is the whole state (storage contents and clock) after the step the correspondence runs
+   (step for the copying store, step_alias for the aliasing store), from ANY state.  The harness checks
+   the same on the real provider with a deep snapshot of everything stored before and after each such
+   request (finding C18:read-only-endpoint-wrote:<endpoint>); what the model does not have - the claim
+   maps of grants, serialisation of the answer, discovery, jwks - is covered there only. *)
+Theorem read_only_requests_keep_the_state : forall w st n o,
+  read_only_op o = true ->
+  fst (step w st n o) = st /\ fst (step_alias w st n o) = st.
+Proof. exact read_only_step_keeps_state. Qed.
+Print Assumptions read_only_requests_keep_the_state.
+
+(* the hypothesis is satisfiable (the last request of ex_ops is one), and revocation - which deletes
+   the grant - is not among them *)
+Example read_only_ops_exist :
+  read_only_op (OpIntrospect (mkQReq (mkCred 1 true) (PExact 225) true)) = true /\
+  read_only_op (OpUserInfo (mkUReq (PExact 225) true (mkBind None 0))) = true /\
+  read_only_op (OpRevoke (mkQReq (mkCred 1 true) (PExact 225) true)) = false /\
+  match ex_world with
+  | Some w => forall st, fst (step_alias w st 7 (OpIntrospect (mkQReq (mkCred 1 true) (PExact 225) true))) = st
+  | None => False
+  end.
+Proof.
+  repeat split. destruct ex_world as [w|] eqn:E; [|vm_compute in E; discriminate E].
+  intros st. apply read_only_requests_keep_the_state. reflexivity.
+Qed.
